@@ -73,6 +73,18 @@ CLAIMED = {
         note='Trusted: RefNet semantics incl. the two delay notations; RK4(h=dt/40)+linear history as adaptive reference. '
              'Loudly refused DDE forms are discarded and counted. Known finding KF-C10-vectorized-tau-first-element.',
         ref='§3 C10'),
+    'C11': dict(
+        technique=TECH + 'lock-step simulation against the explicitly written augmented linear-chain system, incl. an '
+                         'earlier kernel model compiled in the same process',
+        text='Circuits with any mixture of (delay, spread) pairs ((d/s)^2 in [1, 12.4], pairs rounding to the same and '
+             'to different orders, .5 boundaries, optional dde_approx), edges sharing sources/targets, several kernels per '
+             'source, vectorize on/off, scalar nodes and Population/Connectivity(delays, spread) are run with euler and '
+             'with adaptive solvers; the harness builds the explicit chain system (n = round((d/s)^2) stages of rate '
+             'n/d per edge, unit gain, mean d by construction) and steps it with the same dt: every user variable must '
+             'agree at EVERY stored step (1e-9; adaptive: same scipy method on the explicit system, 1e-6).',
+        note='Trusted: RefNet/RefGamma semantics, Python/numpy rounding agreement away from exact .5. Known finding '
+             'KF-C11-buffer-read-before-refresh is identified by its call site in the generated source.',
+        ref='§3 C11'),
     'C13': dict(
         technique=TECH + 'interleaved user workflows in one process vs each workflow alone in a pristine fork '
                          '(refinement), with API/interrupt/I-O/RHS faults and cache wipes',
@@ -114,7 +126,7 @@ CLAIMED = {
 }
 
 _P = 'check under construction in this session (planned as claimed, see DESIGN §0/§3); not decided yet'
-PENDING = {k: _P for k in ['C11', 'C15']}
+PENDING = {k: _P for k in ['C15']}
 
 NA = {
     'C01': 'pure function of (model, state, parameters): no schedule, clock, fault or history in the statement; '
